@@ -325,22 +325,16 @@ def categoryOf (rxns : List Rxn) (k : String) : Cat :=
   else if rxns.any fun r => decide (r.allProd k > 0) then .unaffected
   else .nonparticipating
 
-inductive CatErr where
-  | check (c : Check)   -- the constructor of the irreversible system raised
-  | indexError          -- `net[:, i]` on the one-dimensional empty matrix of a system WITHOUT reactions
-deriving DecidableEq, Repr
-
 /-- `categorize_substances(checks=checks)`: the irreversible system is constructed first (its checks may
     raise); the sets are returned as lists in substance order. Coefficients are `Nat`, so the
     "Expected positive stoichiometric coefficients" branch cannot be taken.
-    With no reactions `np.array([], dtype=object)` has shape `(0,)`, and the first `net[:, i]` raises
-    IndexError (only an empty substance dict escapes: the loop body never runs). -/
-def categorize (s : RSys) (checks : List Check) : Except CatErr Categories :=
+    `_stoichs` reshapes to `(len(rxns), len(keys))`, so a system without reactions has `0 × ns` matrices and
+    every `np.any(net[:, i] …)` over the empty column is False (all substances nonparticipating). -/
+def categorize (s : RSys) (checks : List Check) : Except Check Categories :=
   match RSys.make s.rxns (.odict s.substs) checks with
-  | .error c => .error (.check c)
+  | .error c => .error c
   | .ok irr =>
     let ks := irr.keys
-    if irr.rxns.isEmpty && !ks.isEmpty then .error .indexError else
     .ok { accumulated := ks.filter fun k => categoryOf irr.rxns k = .accumulated
           depleted := ks.filter fun k => categoryOf irr.rxns k = .depleted
           unaffected := ks.filter fun k => categoryOf irr.rxns k = .unaffected
@@ -421,14 +415,16 @@ def RSys.pyEq (a b : RSys) : Bool := listPyEq a.rxns b.rxns && a.substs == b.sub
 /-- `_pred` of `concatenate`: True iff no reaction of the accumulated system has the same four dicts -/
 def concatPred (acc : RSys) (r : Rxn) : Bool := !(acc.rxns.any fun rr => r.sameStoich rr)
 
-/-- loop body of `concatenate`: `yes, no = rs.subset(_pred); rsys += yes; skipped += no` -/
+/-- loop body of `concatenate`: `yes, no = rs.subset(_pred); rsys = rsys + yes; skipped += no`
+    (`rsys + yes` builds a NEW system, `skipped` is the fresh `ReactionSystem([])` of this call) -/
 def concatStep (st : RSys × RSys) (rs : RSys) : RSys × RSys :=
   match subset rs (concatPred st.1) [] with
-  | .ok (y, n) => (iadd st.1 y, iadd st.2 n)
+  | .ok (y, n) => (add st.1 y, iadd st.2 n)
   | .error _ => st   -- unreachable: `checks=()` never raises
 
 /-- `ReactionSystem.concatenate(rsystems)`; `none` for an empty iterable (`next` raises StopIteration).
-    NOTE: in Python the first result IS the first argument, mutated in place. -/
+    No argument is modified; for a one-element iterable the first result IS that element (same object),
+    otherwise it is a new system. -/
 def concatenate : List RSys → Option (RSys × RSys)
   | [] => none
   | first :: rest => some (rest.foldl concatStep (first, ⟨[], []⟩))
@@ -583,7 +579,7 @@ inductive HOp where
   | iadd (i j : Nat)             -- store[i] += store[j]
   | subset (i : Nat) (p : Pred)  -- store.extend(store[i].subset(p))
   | split (i : Nat)              -- store.extend(store[i].split(checks=()))
-  | concat (is : List Nat)       -- a, b = concatenate([store[k] for k in is]); store[is[0]] is mutated (= a); store.append(b)
+  | concat (is : List Nat)       -- a, b = concatenate([store[k] for k in is]); store.append(a) unless len(is) == 1 (then a IS store[is[0]]); store.append(b)
 deriving Repr
 
 inductive HErr where
@@ -613,12 +609,11 @@ def runOp (store : List RSys) : HOp → Except HErr (List RSys)
       | .ok l => .ok (store ++ l.map (·.2))
       | .error _ => .error .split
     | none => .error .index
-  | .concat is => match getAll store is, is with
-    | some l, i0 :: _ => match concatenate l with
-      | some (a, b) => .ok (store.set i0 a ++ [b])
+  | .concat is => match getAll store is with
+    | some l => match concatenate l with
+      | some (a, b) => .ok (if l.length = 1 then store ++ [b] else store ++ [a, b])
       | none => .error .empty
-    | some _, [] => .error .empty
-    | none, _ => .error .index
+    | none => .error .index
 
 def runHistory (store : List RSys) : List HOp → Except HErr (List RSys)
   | [] => .ok store
